@@ -77,7 +77,9 @@ def make_unit(level):
                 asked["decrypt"] += 1
                 return bytes(scoped)
 
-        saved = (usm.auth.create, usm.priv.create, usm.localise_key)
+        from engine.core import seam
+        seam(usm, "auth"), seam(usm, "priv")
+        saved = (seam(usm.auth, "create"), seam(usm.priv, "create"), seam(usm, "localise_key"))
         usm.auth.create = lambda method: Mac
         usm.priv.create = lambda method: Cipher
         usm.localise_key = lambda credentials, engine_id: b"k" * 16
